@@ -99,6 +99,13 @@ class Unsupported(Exception):
     pass
 
 
+class RealBits:
+    """The bit pattern of a symbolic real (only its sign bit can be asked for: isinf/signbit idioms)."""
+    __slots__ = ("v",)
+
+    def __init__(self, v): self.v = v
+
+
 class SolverUnknown(Exception):
     pass
 
@@ -860,6 +867,14 @@ class Exec:
         raise Unsupported("i1 " + op)
 
     def icmp(self, pred, ty, a, b):
+        if isinstance(a, RealBits):
+            if b == 0 and pred == "slt":
+                r = z3.simplify(a.v < 0)
+                return 1 if z3.is_true(r) else 0 if z3.is_false(r) else r
+            if b == 0 and pred == "sge":
+                r = z3.simplify(a.v >= 0)
+                return 1 if z3.is_true(r) else 0 if z3.is_false(r) else r
+            raise Unsupported("integer comparison on the bits of a symbolic real")
         bits = ty.bits if isinstance(ty, IntT) else 64
         if bits == 1:
             a, b = self.bool_to_bv(a, 1), self.bool_to_bv(b, 1)
@@ -963,7 +978,7 @@ class Exec:
                 if isinstance(v, (Fraction, NF)):
                     return frac_to_bits(v, sizeof(ft))
                 if isinstance(v, z3.ArithRef):
-                    raise Unsupported("bitcast of symbolic real to integer")
+                    return RealBits(v)
                 return v
             if isinstance(ft, IntT) and isinstance(tt, FloatT):
                 if isinstance(v, int):
